@@ -26,15 +26,15 @@ def vals (m : Multi) (k : Str) : List Str :=
   | none => []
 
 /-- `m[k] = vs` -/
-def set : Multi → Str → List Str → Multi
+def put : Multi → Str → List Str → Multi
   | [], k, vs => [(k, vs)]
-  | (k', v') :: t, k, vs => if k' = k then (k, vs) :: t else (k', v') :: set t k vs
+  | (k', v') :: t, k, vs => if k' = k then (k, vs) :: t else (k', v') :: put t k vs
 
 /-- `m.Add(k, v)` -/
-def add (m : Multi) (k v : Str) : Multi := set m k (vals m k ++ [v])
+def add (m : Multi) (k v : Str) : Multi := put m k (vals m k ++ [v])
 
 /-- `Header.Get`: first value or "". -/
-def get (m : Multi) (k : Str) : Str :=
+def first (m : Multi) (k : Str) : Str :=
   match vals m k with
   | [] => []
   | v :: _ => v
@@ -44,7 +44,7 @@ def nonEmpty (m : Multi) : Bool := !m.isEmpty
 
 /-- parseRequestHeader: `for k, vs := range c.Headers { if len(r.Headers[k]) == 0 { r.Headers[k] = vs } }` -/
 def mergeStep (acc : Multi) (e : Str × List Str) : Multi :=
-  if vals acc e.1 = [] then set acc e.1 e.2 else acc
+  if vals acc e.1 = [] then put acc e.1 e.2 else acc
 
 def mergeHeaders (c r : Multi) : Multi := c.foldl mergeStep r
 
@@ -78,7 +78,7 @@ deriving DecidableEq, Repr
 
 inductive BodySrc
   | none
-  /-- `SetBodyBytes` / `SetBodyString`: `r.Body` set, `GetBody` returns a fresh reader -/
+  /-- `SetBodyBytes` / `SetBodyString`: `r.Body` put, `GetBody` returns a fresh reader -/
   | bytes (b : Str)
   /-- `SetBody(func() (io.ReadCloser, error))`: `r.Body == nil`, the caller's function makes a fresh reader -/
   | user (b : Str)
@@ -182,25 +182,25 @@ def multipartFields (st : ReqState) : List (Str × Str) :=
 def parseBody (v : Variant) (c : ClientCfg) (ra : Nat) (st : ReqState) : ReqState × WBody :=
   if payloadForbid c st.method then ({ st with body := .none }, .none)
   else if st.multipart then
-    ({ st with headers := set st.headers c.ctKey [c.boundaryCT],
+    ({ st with headers := put st.headers c.ctKey [c.boundaryCT],
                files := st.files.map fun f => { f with src := f.src.consume } },
      .multipart (multipartFields st) (st.files.map (filePart v c)))
   else
     let form := if nonEmpty c.form && (!v.formOnce || ra == 0) then addAll st.form c.form else st.form
     let st := { st with form := form }
-    if nonEmpty form then ({ st with headers := set st.headers c.ctKey [c.formCT] }, .form form)
+    if nonEmpty form then ({ st with headers := put st.headers c.ctKey [c.formCT] }, .form form)
     else if !st.ordered.isEmpty then
-      ({ st with headers := set st.headers c.ctKey [c.formCT] }, .ordered st.ordered)
+      ({ st with headers := put st.headers c.ctKey [c.formCT] }, .ordered st.ordered)
     else
       match st.body with
       | .none => (st, .none)
       | .user b => (st, .raw b)
       | .reader b consumed => ({ st with body := .reader b true }, .raw (if consumed then [] else b))
       | .marshal j =>
-        if get st.headers c.ctKey = [] then ({ st with headers := set st.headers c.ctKey [c.jsonCT] }, .raw j)
+        if first st.headers c.ctKey = [] then ({ st with headers := put st.headers c.ctKey [c.jsonCT] }, .raw j)
         else (st, .raw j)
       | .bytes b =>
-        if get st.headers c.ctKey = [] then ({ st with headers := set st.headers c.ctKey [c.detect b] }, .raw b)
+        if first st.headers c.ctKey = [] then ({ st with headers := put st.headers c.ctKey [c.detect b] }, .raw b)
         else (st, .raw b)
 
 /-- parseRequestCookie.  As found: `if len(c.Cookies) > 0 || r.RetryAttempt <= 0`;
